@@ -33,6 +33,7 @@ func init() {
 
 type genFlow struct {
 	cat          int
+	startOff     [2]uint32 // each reporting node has its own idea of when the flow started
 	start        uint32
 	lastEnd      [2]uint32
 	rates        [4]uint64
@@ -68,6 +69,9 @@ func genAgg(seed uint64, tier string, emphasis int) *plan.Plan {
 		pl.Cfg[fmt.Sprintf("cat%d", k)] = int64(cat)
 		pl.Cfg[fmt.Sprintf("v6%d", k)] = int64(r.IntN(2))
 		f := &genFlow{cat: cat, start: uint32(1 + r.IntN(1000))}
+		if catNeedsCorrelation(cat) && r.IntN(2) == 0 {
+			f.startOff = [2]uint32{uint32(r.IntN(4)), uint32(r.IntN(12))}
+		}
 		for i := range f.rates {
 			f.rates[i] = []uint64{0, 1, 7, 1000, 123456789, 1 << 40}[r.IntN(6)]
 			f.base[i] = []uint64{0, 1, 500, 1 << 33}[r.IntN(4)]
@@ -94,13 +98,14 @@ func genAgg(seed uint64, tier string, emphasis int) *plan.Plan {
 			ni = 0
 		}
 		if !f.exists {
-			*f = genFlow{cat: f.cat, start: f.start, rates: f.rates, base: f.base}
+			*f = genFlow{cat: f.cat, start: f.start, startOff: f.startOff, rates: f.rates, base: f.base}
 			// a new flow record starts a fresh reporting history
 			f.lastEnd = [2]uint32{}
 		}
+		nodeStart := f.start + f.startOff[ni]
 		prev := f.lastEnd[ni]
-		if prev < f.start {
-			prev = f.start
+		if prev < nodeStart {
+			prev = nodeStart
 		}
 		end := prev + uint32(1+r.IntN(20))
 		if r.IntN(4) == 0 {
@@ -124,7 +129,7 @@ func genAgg(seed uint64, tier string, emphasis int) *plan.Plan {
 		}
 		tcp++
 		op := plan.Op{K: "rec", A: int64(k), B: int64(node), S: fmt.Sprintf("STATE-%d", tcp), D: int64(r.IntN(1 << 20)),
-			N: []int64{int64(f.start), int64(end), tot[0], tot[1], tot[2], tot[3], int64(r.IntN(1000)), int64(r.IntN(50))}}
+			N: []int64{int64(nodeStart), int64(end), tot[0], tot[1], tot[2], tot[3], int64(r.IntN(1000)), int64(r.IntN(50))}}
 		if r.IntN(8) == 0 {
 			op.N[6] = int64(r.Uint64() >> 3)
 		}
